@@ -24,6 +24,8 @@ pub(crate) fn process_email_autolinks<'a>(
 
         // cmark-gfm ignores links inside brackets, such as `[[http://example.com]`
         while i < len {
+            #[cfg(comrak_verif)]
+            crate::verif::bump(8);
             if !relaxed_autolinks {
                 match contents[i] {
                     b'[' => {
@@ -56,6 +58,8 @@ pub(crate) fn process_email_autolinks<'a>(
 
             let remain = if i + skip < len {
                 let remain = str::from_utf8(&contents[i + skip..]).unwrap();
+                #[cfg(comrak_verif)]
+                crate::verif::add(8, remain.len());
                 assert!(!remain.is_empty());
                 Some(remain.to_string())
             } else {
@@ -126,6 +130,8 @@ fn email_match<'a>(
     let mut rewind = 0;
 
     while rewind < i {
+        #[cfg(comrak_verif)]
+        crate::verif::bump(8);
         let c = contents[i - rewind - 1];
 
         if isalnum(c) || EMAIL_OK_SET[c as usize] {
@@ -159,6 +165,8 @@ fn email_match<'a>(
     let mut np = 0;
 
     while link_end < size - i {
+        #[cfg(comrak_verif)]
+        crate::verif::bump(8);
         let c = contents[i + link_end];
 
         if isalnum(c) {
@@ -287,6 +295,8 @@ fn check_domain(data: &[u8], allow_short: bool) -> Option<usize> {
     let mut uscore2 = 0;
 
     for (i, c) in unsafe { str::from_utf8_unchecked(data) }.char_indices() {
+        #[cfg(comrak_verif)]
+        crate::verif::bump(8);
         if c == '\\' && i < data.len() - 1 {
             // Ignore escaped characters per https://github.com/github/cmark-gfm/pull/292.
             // Not sure I love this, but it tracks upstream ..
